@@ -114,6 +114,7 @@ def run(run, model):
     run.do(c04.structure_rules, model)
     run.do(meta.shared_member_rule, model, "C17.shared-member")
     run.do(meta.decorate_always, model, "C17.own-lists")
+    run.do(meta.group_copies, model, "C17.group-copies")
     from . import c18
     run.do(c18.find_rule, model, "C17.single-checker")
     run.do(c18.same_object, model, "C17.fresh-checker")
@@ -121,3 +122,4 @@ def run(run, model):
     run.minimum("C17.fresh-merge", 7)
     run.minimum("C17.own-lists", 10)
     run.minimum("C17.own-lists", 2)
+    run.minimum("C17.group-copies", 2)
